@@ -12,14 +12,13 @@
 
    Nothing is re-specified here.  The expectations are the operators of the property modules:
 
-     part E (C05)  RT == INSTANCE ResponseEmitTrace: the trace judge of C05 itself (JudgePrefix on
-                   every prefix, JudgeWhole on the finished observation), i.e. ResponseEmit's clause
-                   operators ExactlyOneStartC, NothingAfterFinalC, OnlyLastHasNoMoreBodyC,
-                   BodilessHaveNoBytesC, TypelessHaveNoFrameworkTypeC, OthersHaveTypeC, PrecedenceC,
-                   LengthConsistentC + the protocol monitor (status line, native-string headers,
-                   byte-string blocks).  The case `c` describes the response as it stood when it was
-                   emitted (after error handlers ran), so "the application" of C05 is: responders,
-                   middleware and error handlers together.
+     part E (C05)  RE == INSTANCE ResponseEmit: the clause operators ExactlyOneStartC, NothingAfterFinalC,
+                   OnlyLastHasNoMoreBodyC, BodilessHaveNoBytesC, TypelessHaveNoFrameworkTypeC,
+                   OthersHaveTypeC, PrecedenceC, LengthConsistentC, applied in the order and to the
+                   observation records of C05's own trace judge (ResponseEmitTrace), + the protocol
+                   monitor (status line, native-string headers, byte-string blocks).  The case `c`
+                   describes the response as it stood when it was emitted (after error handlers ran),
+                   so "the application" of C05 is: responders, middleware and error handlers together.
      part H (C15)  RH == INSTANCE RespHeaders with the stores bound to what the server received:
                    EmitOncePerPlainHeader, AsgiNamesLower, OneLinePerCookieAndRawCookie - the
                    emission sentence of C15 ("the header list handed to the server contains each plain
@@ -42,22 +41,24 @@
                            nothing (nothing to judge)
        exception-escaped   an exception left the app callable, or the response stream raised while the
                            server iterated it: error-path tests that expect the exception to escape
-                           (handlers removed, BaseException, unsupported scope, raising streams).  C05
-                           speaks about what the server receives when the app *answers*.
+                           (handlers removed, BaseException, unsupported scope, raising streams, header
+                           values ASGI cannot encode).  The statements speak about what the server
+                           receives when the app *answers*.
      part E
        invalid-status      the test put a value into resp.status that is no status (not an int 100..999,
-                           http.HTTPStatus or "<3 digits> <reason>"): outside C05's quantifier
-       custom-response     a response class of the test's own that overrides rendering / header
-                           emission and did not pass through falcon's emission (no emission snapshot)
+                           http.HTTPStatus or "<3 digits> <reason>" as str / bytes): outside C05's quantifier
+       custom-response     a response class of the test's own that replaces render_body() (the body is then
+                           whatever that method returns, not one of the documented sources), or whose
+                           emission did not pass through falcon's header emission (no snapshot)
        hop-by-hop-by-app   the test itself set a hop-by-hop header (PEP 3333 forbids the application to);
                            what the monitor then reports is the test's doing
        type-origin-unknown ASGI, 204/304 with a Content-Type equal to the default media type while
                            resp.media was rendered: whether the application or the rendering supplied it
                            cannot be observed from outside
        falsy-stream        the chosen body source is a falsy stream object (outside C05's domain)
-       An exchange the *server* aborted (send failed, iterable not exhausted) is NOT skipped: C05's judge
-       is told sendFailed and judges the prefix.  Where an exception was handled on ASGI the judge is told
-       fk = "render" (a render-phase fault cannot be excluded from outside), which exempts exactly
+       An exchange the *server* aborted (send failed, iterable not exhausted) is NOT skipped: the judge is told
+       sendFailed and, as C05's does, judges what was received.  Where an exception was handled on ASGI the
+       judge is told fk = "render" (a render-phase fault cannot be excluded from outside), which exempts exactly
        PrecedenceC as C05 does; on WSGI a render-phase fault is observed exactly.
        CloseExactlyOnceOnceBegunC is not judged: the suite's stream objects are not instrumented.
      part H
@@ -66,17 +67,19 @@
      part D
        not-routed          no routing took place: a middleware completed the response or raised, or the
                            method is the WEBSOCKET pseudo-method
-       custom-router       the app uses a router inspect_app cannot describe / a custom responder lookup
+       custom-router       the app uses a router inspect_app cannot describe
+       custom-methods      the test extended falcon's method universe (FALCON_CUSTOM_HTTP_METHODS)
        template-vocabulary some route template has a converter, a multi-field segment or two field names at
                            one position (C01's domain; Dispatch has literal and single-field segments)
-       sink-vocabulary     some sink prefix is not made of literal text, (?P<n>\d+), (?P<n>[^/]+)
+       sink-vocabulary     some sink prefix is not made of literal text, (?P<n>\d+), (?P<n>[^/]+), or a static
+                           prefix is not "/literal/"
        order-unknown       the order of the add_sink / add_static_route calls was not observed, or one
                            callable serves several sinks
-       responder-unnamed   the picked responder cannot be named (no uri_template, not on_<method>[_suffix],
+       responder-unnamed   the picked responder cannot be named (no uri_template, not an on_* method,
                            non-string keyword arguments)
      part S (in addition to part D)
        not-default-answer  the decision is not 404 / 405 / automatic OPTIONS
-       middleware          the app has middleware (it may rewrite the answer: CORS does)
+       middleware          the app has middleware (it may rewrite the answer: CORS does), or it could not be inspected
        own-error-handler   the app registered error handlers of its own (they render the 404 / 405)
        no-response         nothing reached the server *)
 EXTENDS Integers, Sequences, FiniteSets, TLC, Json, IOUtils
@@ -90,9 +93,38 @@ T == Traces[tid]
 SeqRange(s) == {s[i] : i \in 1..Len(s)}
 
 -----------------------------------------------------------------------------
-(* part E: C05's own trace judge on the record (fields c, ev, pieces, begun, closes, raised,
-   sendFailed, renderFailed, renderFails, exc, errors) *)
-RT == INSTANCE ResponseEmitTrace
+(* part E: ResponseEmit's clause operators on the record (fields c, ev, pieces, begun, closes, raised,
+   sendFailed, exc, errors - the observation format of ResponseEmitTrace) *)
+RE == INSTANCE ResponseEmit WITH RenderSetsType <- FALSE, BodilessByLine <- FALSE, ForgetCloseOnFault <- FALSE, StaleLengthOnRenderFault <- FALSE,
+          c0 <- T.c, c <- T.c, pc <- "done", ev <- T.ev, k <- 0, hand <- -1, sends <- 0,
+          begun <- T.begun, closes <- T.closes, raised <- T.raised, sendFailed <- T.sendFailed
+
+(* The observation records and the order of the clauses are those of ResponseEmitTrace (Prefix / Whole / JudgePrefix /
+   JudgeWhole; P:Exception is subsumed by exception-escaped, the close clause is not observable).  They are written
+   out here because an INSTANCE of that module reads the trace file through its own `Traces` definition, which TLC
+   re-evaluates on every use inside an instance (minutes instead of seconds). *)
+Complete == ~T.sendFailed /\ ~T.exc
+PrefixObs(n) == [c |-> T.c, ev |-> SubSeq(T.ev, 1, n), pieces |-> <<>>, begun |-> T.begun, closes |-> 0,
+                 complete |-> FALSE, ended |-> FALSE]
+WholeObs     == [c |-> T.c, ev |-> T.ev, pieces |-> T.pieces, begun |-> T.begun, closes |-> T.closes,
+                 complete |-> Complete, ended |-> TRUE]
+
+JudgePrefix(o) ==
+    IF ~RE!ExactlyOneStartC(o) THEN "P:ExactlyOneStart"
+    ELSE IF ~RE!NothingAfterFinalC(o) THEN "P:NothingAfterFinal"
+    ELSE IF ~RE!OnlyLastHasNoMoreBodyC(o) THEN "P:OnlyLastHasNoMoreBody"
+    ELSE IF ~RE!BodilessHaveNoBytesC(o) THEN "P:BodilessHaveNoBytes"
+    ELSE IF ~RE!TypelessHaveNoFrameworkTypeC(o) THEN "P:TypelessHaveNoFrameworkType"
+    ELSE IF ~RE!OthersHaveTypeC(o) THEN "P:OthersHaveType"
+    ELSE "ok"
+
+JudgeWhole(o) ==
+    IF T.errors > 0 THEN "P:Protocol"
+    ELSE IF ~RE!ExactlyOneStartC(o) THEN "P:ExactlyOneStart"
+    ELSE IF ~RE!OnlyLastHasNoMoreBodyC(o) THEN "P:OnlyLastHasNoMoreBody"
+    ELSE IF ~RE!PrecedenceC(o) THEN "P:Precedence"
+    ELSE IF ~RE!LengthConsistentC(o) THEN "P:LengthConsistent"
+    ELSE "ok"
 
 ExchangeSkip ==
     IF T.x.norequest THEN "no-request"
@@ -101,11 +133,11 @@ ExchangeSkip ==
 
 EmitSkip ==
     IF ExchangeSkip # "" THEN ExchangeSkip
-    ELSE IF ~T.x.snap THEN "custom-response"
+    ELSE IF ~T.x.snap \/ T.x.ownrender THEN "custom-response"
     ELSE IF T.x.badstatus THEN "invalid-status"
     ELSE IF T.x.hopbyhop THEN "hop-by-hop-by-app"
-    ELSE IF T.x.ctunknown /\ RT!RE!Typeless(T.c) THEN "type-origin-unknown"
-    ELSE IF T.x.falsystream /\ RT!RE!Chosen(T.c) = "stream" THEN "falsy-stream"
+    ELSE IF T.x.ctunknown /\ RE!Typeless(T.c) THEN "type-origin-unknown"
+    ELSE IF T.x.falsystream /\ RE!Chosen(T.c) = "stream" THEN "falsy-stream"
     ELSE ""
 
 (* JudgePrefix is evaluated on the longest prefix only.  Its clauses (at most one start and nothing before it,
@@ -115,7 +147,7 @@ EmitSkip ==
    walks the prefixes to name the position; the suite has responses of a thousand blocks.) *)
 EmitVerdict ==
     IF EmitSkip # "" THEN "skip/" \o EmitSkip
-    ELSE LET p == RT!JudgePrefix(RT!Prefix(Len(T.ev))) IN IF p # "ok" THEN p ELSE RT!JudgeWhole(RT!Whole)
+    ELSE LET p == JudgePrefix(PrefixObs(Len(T.ev))) IN IF p # "ok" THEN p ELSE JudgeWhole(WholeObs)
 
 -----------------------------------------------------------------------------
 (* part H: the emission invariants of RespHeaders, the stores bound to what the server received *)
@@ -185,6 +217,7 @@ DispSkip ==
     IF ExchangeSkip = "no-request" THEN ExchangeSkip
     ELSE IF ~Dd.routed THEN "not-routed"
     ELSE IF ~Dd.stdrouter THEN "custom-router"
+    ELSE IF Dd.custommethods THEN "custom-methods"
     ELSE IF ~Dd.tmplok \/ ~D!ConflictFree(CfgRoutes) THEN "template-vocabulary"
     ELSE IF ~Dd.sinkok THEN "sink-vocabulary"
     ELSE IF ~Dd.orderok THEN "order-unknown"
